@@ -515,7 +515,8 @@ pub fn build_rdata<'a>(rd: &'a ARData) -> Result<RData<'a>, String> {
                 // the given key already existed, the previous entry will be replaced"): even keys are replaced
                 // at once, the odd ones after all the others, highest key first
                 for (k, v) in pairs {
-                    s.set_param(*k, &b"\x00placeholder"[..]).map_err(|e| format!("set_param: {:?}", e))?;
+                    // (a library that refuses the placeholder simply gets the value set once)
+                    let _ = s.set_param(*k, &b"\x00placeholder"[..]);
                     if k % 2 == 0 {
                         s.set_param(*k, &v.0[..]).map_err(|e| format!("set_param: {:?}", e))?;
                     }
